@@ -80,6 +80,56 @@ def reject_obligations(run: Run, rule: str, src, g):
         sys.setrecursionlimit(old)
 
 
+CYCLIC_BOOKS = [
+    ('two cells', [('S', [[1, '=C1+1', '=B1*2']])]),
+    ('a cell inside its own area', [('S', [[1], [2], ['=SUM(A1:A3)']])]),
+    ('across sheets', [('S', [['=T!A1+1', 5]]), ('T', [["=S!A1*2", 7]])]),
+    ('a cell that mentions itself in a branch', [('S', [[0, '=IF(A1>0;B1;2)']])]),
+]
+
+
+def cycle_obligations(run: Run, rule: str, src, g):
+    """a workbook whose formulas depend on themselves is rejected with an exception of the library -- whole file and from an entry
+    point inside the cycle; a translation that does not come back (the evaluator's depth bound on a workbook of three cells) is the
+    unbounded descent a RecursionError ends"""
+    from ..finite import Unknown, AbsRaise, AV, const_av
+    from .common import library_exceptions
+    lib = library_exceptions(src)
+    ct = src.cls('CellTranslator')
+    loc = loc_of(ct.module.path, ct.node)
+    old = sys.getrecursionlimit()
+    sys.setrecursionlimit(max(old, 120000))
+    try:
+        for name, sheets in CYCLIC_BOOKS:
+            for mode in ('whole file', 'entry point'):
+                construct = f'cyclic workbook/{name}/{mode}'
+                try:
+                    pl = Pipeline(src, g)
+                    pl.ev.max_depth = 400
+                    if mode == 'whole file':
+                        pl.translate_file(sheets)
+                    else:
+                        formula_at = next((t, c, r) for t, (_, d) in enumerate(sheets) for r, row in enumerate(d) for c, v in enumerate(row)
+                                          if isinstance(v, str) and v.startswith('='))
+                        t, c, r = formula_at
+                        pl.translate(sheets, sheets[t][1][r][c], where=formula_at)
+                    got = 'translated'
+                except Unknown as u:
+                    if 'depth exceeded' in str(u):
+                        got = 'unbounded descent (RecursionError)'
+                    else:
+                        raise AnalysisError(rule, f'{construct}: the abstraction cannot follow the pipeline ({str(u)[:160]})')
+                except RecursionError:
+                    got = 'unbounded descent (RecursionError)'
+                except AbsRaise as e:
+                    got = 'library exception' if e.exc in lib else f'raises {e.exc}'
+                run.check(got == 'library exception', rule, construct, 'cycle-not-rejected',
+                          f'the workbook with a dependency cycle ({name}, {mode}) ends in: {got}; it is rejected with an exception of the library',
+                          fact=got, loc=loc)
+    finally:
+        sys.setrecursionlimit(old)
+
+
 def _lst(x):
     from ..finite import AV, const_av
     return AV('list', items=tuple(_lst(y) for y in x)) if isinstance(x, list) else const_av(x)
